@@ -57,8 +57,8 @@ fn na_literal(mut idx: u64) -> String {
 fn space_for(tier: Tier) -> Space {
     let mut s = Space::new();
     match tier {
-        Tier::Quick => s.list("literals<=3", count(3), 64).list("non-ASCII literals<=2", na_count(2), 16).list("flag strings", 1, 1),
-        Tier::Thorough => s.list("literals<=4", count(4), 64).list("non-ASCII literals<=3", na_count(3), 16).list("flag strings", 1, 1),
+        Tier::Quick => s.list("literals<=3", count(3), 64).list("non-ASCII literals<=2", na_count(2), 16).list("flag strings", 1, 1).list("long literals", 24, 4),
+        Tier::Thorough => s.list("literals<=4", count(4), 64).list("non-ASCII literals<=3", na_count(3), 16).list("flag strings", 1, 1).list("long literals", 24, 4),
     };
     s
 }
@@ -224,6 +224,54 @@ impl Check for C13 {
     fn run_chunk(&self, ctx: &Ctx, chunk: u64, out: &mut ChunkOut) {
         let sp = space_for(ctx.tier);
         let (seg, lo, hi) = sp.locate(chunk);
+        if crate::space::seg_scope_name(seg) == "long literals" {
+            // literals of 13..36 characters against every input that differs from the literal in
+            // exactly one position (and the literal itself, embedded): prefix-length shortcuts
+            const BASE: &str = "0123456789abcdef+*(xyz)[.]{2}\\|^$?AB";
+            let base: Vec<char> = BASE.chars().collect();
+            for k in lo..hi {
+                let n = 13 + k as usize;
+                let lit: String = base[..n.min(base.len())].iter().collect();
+                let lc: Vec<char> = lit.chars().collect();
+                for flags in ["q", "qi"] {
+                    let re = match imp::compile(&lit, flags, false) {
+                        Out::Ok(r) => r,
+                        o => {
+                            if !o.is_crash() {
+                                out.fail("C13", &Case::new("LONGLIT", &lit, flags).api("compile"), "LiteralRejected", "Ok", &format!("{:?}", o.map(|_| ())), "");
+                            }
+                            continue;
+                        }
+                    };
+                    let mut cases: Vec<(String, bool)> = vec![(lit.clone(), true), (format!("--{}--{}", lit, lit), true)];
+                    for pos in 0..lc.len() {
+                        let mut m = lc.clone();
+                        m[pos] = if m[pos] == '#' { '%' } else { '#' };
+                        cases.push((m.iter().collect(), false));
+                        cases.push((format!("x{}x", m.iter().collect::<String>()), false));
+                    }
+                    cases.push((lc[..lc.len() - 1].iter().collect(), false));
+                    cases.push((lc[1..].iter().collect(), false));
+                    for (inp, want) in cases {
+                        out.inc("states");
+                        let m = imp::is_match(&re, &inp);
+                        let r = imp::replace_all(&re, &inp, "\u{1}");
+                        if let (Out::Ok(m), Out::Ok(r)) = (m, r) {
+                            out.inc("validated");
+                            let found = r.contains('\u{1}');
+                            if m != want || found != want {
+                                out.fail("C13", &Case::new("LONGLIT", &lit, flags).input(&inp).api("is_match"), if want { "WrongFalse" } else { "WrongTrue" }, &want.to_string(), &format!("is_match={} replace_all finds={}", m, found), "the literal occurs iff it is a contiguous substring");
+                            }
+                        } else {
+                            out.inc("inconclusive_crash");
+                        }
+                    }
+                }
+                out.inc("nontrivial");
+                out.sample(J::obj(vec![("literal", J::s(&lit)), ("flags", J::s("q qi"))]));
+            }
+            return;
+        }
         if crate::space::seg_scope_name(seg) == "flag strings" {
             let n = super::common::flag_effect(out, "C13", 'q');
             out.sample(J::obj(vec![("flag_strings_probed", J::i(n as usize))]));
